@@ -1,5 +1,6 @@
 import GrolProofs.Props.C02
 import GrolProofs.PrintFrame
+import GrolProofs.PrintNewline
 /-
 C03 — formatting is a deterministic fixpoint.
 
@@ -13,9 +14,10 @@ C03 — formatting is a deterministic fixpoint.
     what the suite checks (every 40th case is formatted again after `token.Init()`).
 (3) normal-mode output ends with a newline: PROVED for every tree (`ends_with_newline`, from the frame
     lemma `printNode_frame`: every PrettyPrint method preserves indentation level and compact flag).
-    "Exactly one" (the byte before is not a newline) is evaluated by the driver on every case
-    (`FormatSuite.endsWithOneNewline`) but not proved: it needs the lexer fact that no token literal
-    ends in a newline.
+    "Exactly one" is PROVED too (`exactly_one_newline`) under the lexer fact, stated as a decidable
+    hypothesis on the tree (`Printer.endOKL`): the literal of every token a node prints last (identifier,
+    number, keyword, comment, operator of a postfix / open-ended `n:` node, `return`) is non-empty and
+    does not end in a newline.  That the lexer guarantees it belongs to the lexer component.
 -/
 namespace Grol.C03
 open Grol Grol.Wire Grol.Parser Grol.Printer Grol.Generated
@@ -42,6 +44,14 @@ program ends with a newline -/
 theorem ends_with_newline (tbl : Nat → Bool) (prog : NList) (allParens : Bool) (out : Bytes)
     (h : printProgram tbl prog false allParens = .ok out) : out.getLast? = some 10 :=
   printProgram_ends_with_newline tbl prog allParens out h
+
+/-- (3), second half: given the lexer fact that the token literals a node prints last are non-empty and do not
+end in a newline (`Printer.endOKL prog`, a decidable predicate on the tree), the normal-mode text is
+`body ++ "\n"` with `body` not ending in a newline: exactly one trailing newline -/
+theorem exactly_one_newline (tbl : Nat → Bool) (prog : NList) (allParens : Bool) (out : Bytes)
+    (h : printProgram tbl prog false allParens = .ok out) (he : endOKL prog = true) :
+    ∃ body, out = body ++ [10] ∧ body.getLast? ≠ some 10 :=
+  printProgram_exactly_one_newline tbl prog allParens out h he
 
 /-- history independence of the model, in the only form it can take there: parsing and printing
 are functions (no state survives between two calls) -/
